@@ -27,7 +27,7 @@ class _Sub:
         self.tag = ["sub", p, j, w]
 
 
-def replay_logs(logs: list[list[dict[str, Any]]], leaf_specs: list[list[str]], fn_slots: list[str], missing: list[str]) -> list[dict[str, Any]]:
+def replay_logs(logs: list[list[dict[str, Any]]], leaf_specs: list[list[str]], fn_slots: list[str], missing: list[str], inherit: dict[str, str] | None = None) -> list[dict[str, Any]]:
     import jax
 
     import jax2onnx.converter.conversion_api as capi
@@ -38,16 +38,26 @@ def replay_logs(logs: list[list[dict[str, Any]]], leaf_specs: list[list[str]], f
     ps.import_all_plugins()
     slots = sorted({s for sp in leaf_specs for s in sp})
 
+    inherit = dict(inherit or {})
+
     class Target:  # recording target: attributes named after slots
         pass
 
+    class SubTarget(Target):  # inherited slots: the attribute lives in the base class only
+        pass
+
+    # slot -> (class whose namespace is patched, attribute name)
+    LOC = {s: ((SubTarget, inherit[s]) if s in inherit else (Target, s)) for s in slots}
     ORIG = {s: object() for s in slots}
 
     state = {"serial": 0, "fail_fn": None, "fail_leaf": set()}
 
     def reset_target() -> None:
         for s in slots:
-            if s in missing:
+            if s in inherit:
+                if inherit[s] in SubTarget.__dict__:
+                    delattr(SubTarget, inherit[s])
+            elif s in missing:
                 if hasattr(Target, s):
                     delattr(Target, s)
             else:
@@ -86,7 +96,7 @@ def replay_logs(logs: list[list[dict[str, Any]]], leaf_specs: list[list[str]], f
                         raise Injected(f"leaf {p},{j}")
                     return _Sub(p, j, state["serial"])
 
-                out.append(MonkeyPatchSpec(target=Target, attr=s, make_value=mk, delete_if_missing=False))
+                out.append(MonkeyPatchSpec(target=LOC[s][0], attr=LOC[s][1], make_value=mk, delete_if_missing=False))
             return out
 
         cls = type(
@@ -108,10 +118,11 @@ def replay_logs(logs: list[list[dict[str, Any]]], leaf_specs: list[list[str]], f
     def snapshot() -> dict[str, Any]:
         attr = {}
         for s in slots:
-            v = Target.__dict__.get(s, None) if s in Target.__dict__ else None
-            if s not in Target.__dict__:
-                attr[s] = ["missing"]
-            elif v is ORIG[s]:
+            tcls, tattr = LOC[s]
+            v = tcls.__dict__.get(tattr, None) if tattr in tcls.__dict__ else None
+            if tattr not in tcls.__dict__:
+                attr[s] = ["inherit", inherit[s]] if s in inherit else ["missing"]
+            elif v is ORIG[s] or (s not in inherit and v is ORIG.get(s)):
                 attr[s] = ["orig"]
             elif isinstance(v, _Sub):
                 attr[s] = v.tag
